@@ -43,6 +43,113 @@ def scope_module(prog):
 SCOPESTACK = "eval::scope::ScopeStack"
 
 
+def cell_allocators(prog):
+    """Crate helpers that hand back a cell they have just allocated
+    (`fn new_shared<T>(v: T) -> Arc<Mutex<T>> { Arc::new(Mutex::new(v)) }`):
+    every value they return is the result of an `Arc::new` of their own."""
+    memo = getattr(prog, "_cell_allocators", None)
+    if memo is not None:
+        return memo
+    out = set()
+    for f in prog.hand_fns():
+        if f.is_closure or f.from_expansion or not f.locals or not f.locals[0].startswith("std::sync::Arc<"):
+            continue
+        ds = f.defs().get(0, [])
+        ok = bool(ds)
+        for (bb, idx, kind, payload) in ds:
+            if kind == "call":
+                c = payload
+                if (c.declared or "") != "std::sync::Arc::<T>::new":
+                    ok = False
+            elif kind == "rv" and payload[0] == "use" and mir.is_place_operand(payload[1]):
+                cp = f.canon_op(payload[1])
+                c = f.call_at(cp[0][1]) if cp[0][0] == "call" and len(cp) == 1 else None
+                if c is None or (c.declared or "") != "std::sync::Arc::<T>::new":
+                    ok = False
+            else:
+                ok = False
+        if ok:
+            out.add(f.path)
+    prog._cell_allocators = out
+    return out
+
+
+def _generic_args(t):
+    """Top-level generic arguments of `Head<A, B>` -> (head, [A, B])."""
+    i = t.find("<")
+    if i < 0 or not t.endswith(">"):
+        return t, []
+    head, body = t[:i], t[i + 1:-1]
+    out, depth, cur = [], 0, ""
+    for ch in body:
+        if ch in "<([":
+            depth += 1
+        elif ch in ">)]":
+            depth -= 1
+        if ch == "," and depth == 0:
+            out.append(cur.strip())
+            cur = ""
+        else:
+            cur += ch
+    if cur.strip():
+        out.append(cur.strip())
+    return head, out
+
+
+DEFAULT_SCOPE_MAP = "std::collections::HashMap<std::string::String, (eval::value::SourcedValue, (usize, usize))>"
+
+
+def scope_map_ty(prog):
+    """The type of one scope's bindings, found in ScopeStack's type graph (the
+    `HashMap<String, V>` behind the chain's shared cells), whatever `V` is
+    today: a `(value, location)` pair or a crate struct holding them."""
+    memo = getattr(prog, "_scope_map_ty", None)
+    if memo is not None:
+        return memo
+    found = []
+    seen = set()
+
+    def walk(t, depth):
+        if depth > 8 or t in seen:
+            return
+        seen.add(t)
+        t = _strip_ty(t)
+        head, args = _generic_args(t)
+        if head == "std::collections::HashMap" and args and args[0] == "std::string::String":
+            found.append(t)
+            return
+        a = prog.adts.get(head if args else t)
+        if a and not head.startswith(("std::", "core::", "alloc::")):
+            for v in a.get("variants", []):
+                for fd in v["fields"]:
+                    walk(fd["ty"], depth + 1)
+        for x in args:
+            walk(x, depth + 1)
+    a = prog.adts.get(SCOPESTACK)
+    if a:
+        for v in a.get("variants", []):
+            for fd in v["fields"]:
+                walk(fd["ty"], 0)
+    out = found[0] if found else DEFAULT_SCOPE_MAP
+    prog._scope_map_ty = out
+    return out
+
+
+def scope_map_path(prog):
+    """The scope map type as it appears in a resolved method path
+    (`HashMap::<String, V>::get`)."""
+    return scope_map_ty(prog).replace("std::collections::HashMap<", "HashMap::<", 1)[:-1]
+
+
+def is_scope_map(prog, s):
+    """Does the type or resolved-path string `s` mention the scope map type
+    (`HashMap<String, V>` as a type, `HashMap::<String, V>` in a path)?"""
+    if not s:
+        return False
+    m = scope_map_ty(prog)
+    return m in s or m.replace("HashMap<", "HashMap::<", 1) in s
+
+
 def scope_pushers(prog):
     """Scope-module functions that take a chain by reference and return a
     chain onto which they pushed a scope cell (today: new_from_push)."""
